@@ -126,7 +126,9 @@ EMatch(s, p) ==
                  w == d + 3 + pu
                  e == SkipWS(s, w)          \* first index after the match
              IN [ok |-> TRUE, pre |-> hasPre, d0 |-> d0, d |-> d, pu |-> pu, w |-> w, e |-> e]
-  IN IF LineStart(s, p) /\ tryFrom(p, FALSE).ok THEN tryFrom(p, FALSE)
+  \* the zero-width prefix is the start of the TEXT only [fix D68; before it: of every line, which made the rewrite depend on where wrapping
+  \* had put a line break and convert on a second pass what the first had moved to a line start]
+  IN IF p = 1 /\ tryFrom(p, FALSE).ok THEN tryFrom(p, FALSE)
      ELSE IF p <= Len(s) /\ EPrefix(s[p]) /\ tryFrom(p + 1, TRUE).ok THEN tryFrom(p + 1, TRUE)
      ELSE [ok |-> FALSE]
 RECURSIVE EllFrom(_, _, _)
